@@ -1,0 +1,41 @@
+//go:build verif
+
+package acme
+
+// Contracts checked by /verif/govc (comment-only file; build tag verif).
+
+// ---------------------------------------------------------------------------
+// C17 — a certificate is requested exactly when needed
+
+//@ spec func allCovered(crt *x509.Certificate, domains []string) bool =
+//@     forall k int :: 0 <= k && k < len(domains) ==> certCovers(crt, domains[k])
+
+//@ func match
+//@   props C17
+//@   requires crt != nil
+//@   modifies nothing
+//@   ensures iff: result == allCovered(crt, domains)
+//@   loop 1 invariant seen: 0 <= $idx(1) && $idx(1) <= len(domains) && forall k int :: 0 <= k && k < $idx(1) ==> certCovers(crt, domains[k])
+//@ end
+
+//@ count Sign   = (acme.Client).Sign
+//@ count Store  = (acme.Cache).SetTLSSecretContent
+//@ count GetTLS = (acme.Cache).GetTLSSecretContent
+
+// issue iff the secret is missing/unreadable, expires before the due date or
+// does not cover every domain; store only a complete certificate+key pair.
+// The instant NotAfter == duedate is left open (keys.md says "or less", the
+// code uses a strict comparison; the property does not choose).
+//@ func (*signer).verify
+//@   props C17
+//@   ensures once:    calls(GetTLS) == 1 && calls(Sign) <= 1 && calls(Store) <= 1
+//@   ensures missing: last(GetTLS).1 != nil ==> calls(Sign) == 1
+//@   ensures expiring: last(GetTLS).1 == nil && at(GetTLS, instant(last(GetTLS).0.Crt.NotAfter)) < instant(duedate) ==> calls(Sign) == 1
+//@   ensures outdated: last(GetTLS).1 == nil && !at(GetTLS, allCovered(last(GetTLS).0.Crt, domains)) ==> calls(Sign) == 1
+//@   ensures valid:   last(GetTLS).1 == nil && at(GetTLS, instant(last(GetTLS).0.Crt.NotAfter)) > instant(duedate) && at(GetTLS, allCovered(last(GetTLS).0.Crt, domains))
+//@       ==> calls(Sign) == 0 && calls(Store) == 0 && result == nil
+//@   ensures complete: calls(Store) == 1 ==> calls(Sign) == 1 && last(Sign).0 != nil && last(Sign).1 != nil
+//@   ensures stored:  calls(Store) == 1 ==> result == last(Store)
+//@   ensures unsigned: calls(Sign) == 1 && calls(Store) == 0 ==> result == last(Sign).2
+//@   at call SetTLSSecretContent#1 assert pair: $arg1 == secretName && $arg2 == last(Sign).0 && $arg3 == last(Sign).1
+//@ end
